@@ -125,26 +125,26 @@ META = {
  "C01": ("Proved (all trees, no bound): two normal-form diagrams are equal iff they denote the same function — for BDD, BCDD (node and tag), ZBDD (relative to the number of levels); results of connectives are the unique normal form of the specified function. Tied to the code by histories (operations, clone/drop, gc, add_vars, set_var_order) whose every output tree, `==` result and post-gc store is identical to the compiled model's; oracle on the real code: handle equality <=> equal truth tables for every new handle against all live ones, Hash/Ord consistent.",
          "The theorems are about the tree-level models (the diagram is its unfolding); hash consing and the unique table are covered by the store refinement for BDDs (C06 layer) and otherwise by the tie. MTBDD/TDD canonicity: Mtbdd/Tdd areas (C10, C11).",
          "Lean proof of canonicity + model/implementation correspondence on histories"),
- "C02": ("Proved for all operand tuples and all diagram depths: not, the 8 binary connectives and ite take under every assignment the value of the propositional connective (BDD, BCDD incl. all tagged shortcuts, ZBDD via set algebra with the tautology chain), results are in normal form, constants/variables/cofactors/eval-walk as specified. Tied by exhaustive 3-variable pair/triple streams under all 6 orders (thorough: all pairs) and random operands to 8 variables with 1 and 4 worker threads; oracle: truth table of the result computed by an independent node walk vs the operands' expected tables.",
+ "C02": ("Proved for all operand tuples and all diagram depths: not, the 8 binary connectives and ite take under every assignment the value of the propositional connective (BDD, BCDD incl. all tagged shortcuts, ZBDD via set algebra with the tautology chain), results are in normal form, constants/variables/cofactors/eval-walk as specified. Tied by exhaustive 3-variable pair/triple streams under all 6 orders (thorough: all pairs) and random operands to 8 variables with 1 and 4 worker threads; oracle: truth table of the result computed by an independent node walk vs the operands' expected tables; `eval` argument lists name variables repeatedly (last value counts); random cases add variables while handles and memoised results are alive. The terminal-case decision lists of the BDD `terminal_bin` are extracted from the current source and proved identities of the model's connectives.",
          "Tree-level theorems; multi-threaded recursor and apply cache are covered by C06/C07 layers (BDD) and by the streams.",
          "Lean proof (induction over trees) + exhaustive small-scope correspondence"),
  "C03": ("Proved: every operation returns an ordered, reduced (kind-specific rule, BCDD then-edge regular) diagram; node count = number of distinct subterms and equal for equal functions; gc/closure well-formedness of the store (C05 layer). Tied by histories with a structural audit through the public API after every step (levels, reduction rule, duplicates per level, var/level maps inverse) and node_count against an independent reference construction.",
          "History-level induction over manager operations is being added (PropertiesHistory); the audit oracle is independent of the model.",
          "Lean proof of normal-form preservation + structural audit oracle on histories"),
  "C04": ("Proved for all trees: exists/forall/unique = iterated or/and/xor of cofactors (order independent), restrict = cofactor w.r.t. the literal cube, apply-and-quantify = apply then quantify (as trees), the BCDD dispatch tables are Boolean identities — also re-proved over the tables extracted from the current source —, substitution is simultaneous and leaves other variables untouched. Tied by exhaustive 3-variable streams and random instances; reuse/alternation of substitution objects across gc is in the streams.",
-         "Substitution-id uniqueness and cache keying are part of the C06 layer/streams.",
+         "Cache keying is part of the C06 layer/streams; identifiers of substitution objects created concurrently are checked for uniqueness on the real code (oracle), not proved.",
          "Lean proof + source-extracted table obligations + correspondence"),
- "C05": ("Proved for all stores/handle lists: the single top-down gc pass removes exactly the unreachable nodes (uses orderedness; bottom-up counterexample), keeps closure/duplicate-freeness, handles untouched, reference counts = handles + stored parent edges before/after clone, drop, new parent, gc; no handles => empty store. Tied: `gc` node counts and the full post-gc store with reference counts are identical to the model's; oracle on the real code at every point (garbage included): ref_count = live handles + stored parent edges + internal roots; leak monitor on stderr; a >65536-node collection followed by larger re-allocation.",
-         "The table's own reference and atomics' memory orderings are not modelled; background gc thread is exercised, not modelled.",
+ "C05": ("Proved for all stores/handle lists: the single top-down gc pass removes exactly the unreachable nodes (uses orderedness; bottom-up counterexample), keeps closure/duplicate-freeness, handles untouched, reference counts = handles + stored parent edges before/after clone, drop, new parent, gc; no handles => empty store. Tied: `gc` node counts and the full post-gc store with reference counts are identical to the model's; oracle on the real code at every point (garbage included): ref_count = live handles + stored parent edges + internal roots; leak monitor on stderr; a >65536-node collection followed by larger re-allocation; results dropped at once and recomputed after gc / add_vars / reordering (weak cache references); a small store driven across the high water mark many times so that the background collector runs (every line also on a large reference manager). The memory orderings of the reference-count protocol are extracted from the source and checked against what the interleaving models assume (Release decrement, Acquire before freeing).",
+         "The table's own reference is not modelled; that Release/Acquire suffice is the standard Arc argument (assumed); the background gc thread is exercised, its free-list hand-over is covered by the allocator trace model where registered.",
          "Lean proof of gc exactness + reference-count oracle"),
- "C06": ("Proved (store-level BDD model with ids): for every admissible cache policy (exact, none, direct-mapped with any hash/capacity/lock-failure pattern) and every sound cache state the memoised not/apply/ite return an edge denoting the tree-level result; runs with different caches/policies return equal edges and stores; a hit needs the full key (tag + all operands); each operator is memoised under its own tag — also re-proved on the tags extracted from the current source for BDD, MTBDD, TDD; clearing establishes soundness; sweeping without clearing breaks it (witness). Tied by the same histories under cache capacities {1,2,16,65536}, different operators on the same operands, superset/subset variable sets, gc/reorder/add_vars between repetitions.",
-         "The bucket implementation is abstracted by Policy.OK; BCDD/ZBDD/MTBDD/TDD caches are covered by streams and the extracted-tag obligations.",
+ "C06": ("Proved (store-level BDD model with ids): for every admissible cache policy (exact, none, direct-mapped with any hash/capacity/lock-failure pattern) and every sound cache state the memoised not/apply/ite return an edge denoting the tree-level result; runs with different caches/policies return equal edges and stores; a hit needs the full key (tag + all operands); each operator is memoised under its own tag — also re-proved on the tags extracted from the current source for BDD, MTBDD, TDD; clearing establishes soundness; sweeping without clearing breaks it (witness). Tied by the same histories under cache capacities {1,2,16,65536}, different operators on the same operands, superset/subset variable sets, gc/reorder/add_vars between repetitions; the real direct-mapped cache driven directly through the ApplyCache trait against a monitor (a hit returns only what was added under exactly that key since the last clear). The same refinement is proved for BCDD (tag normalisation, and/xor kernels, ite) and for ZBDD (set operations, subset with the variable in the key, not, ite, restrict with the number of levels in the key, add_vars keeping an uncleared cache sound).",
+         "The bucket implementation is abstracted by Policy.OK; MTBDD/TDD caches are covered by streams and the extracted-tag obligations.",
          "Lean refinement proof (store + cache) + extracted-table obligations + correspondence across cache sizes"),
- "C07": ("Proved: the apply algorithms run against an adversarial environment invoked at every atomic point (other threads' node creation, cache writes/evictions, the collector) that only preserves the invariant and the denotations of held edges — for every such environment and fork order the result denotes the sequential result and held edges are stable; every atomic action of the algorithms is itself such an environment step (rely/guarantee), a complete foreign apply is one too. Tied by concurrent scripts (2-4 OS threads, 2-16 workers, split depths 0/1/auto/64, concurrent gc) whose every result equals the sequential model's, followed by audit and exact reference counts; hang watchdog.",
-         "PARTIAL: real scheduler, memory model, lock fairness and deadlock freedom are tested (stress + watchdog), not proved; resumption-level composition of fine-grained interleavings is argued, call-level composition is proved.",
+ "C07": ("Proved: the apply algorithms run against an adversarial environment invoked at every atomic point (other threads' node creation, cache writes/evictions, the collector) that only preserves the invariant and the denotations of held edges — for every such environment and fork order the result denotes the sequential result and held edges are stable; every atomic action of the algorithms is itself such an environment step (rely/guarantee), a complete foreign apply is one too. Tied by concurrent scripts (2-4 OS threads, 2-16 workers, split depths 0/1/auto/64, concurrent gc) whose every result equals the sequential model's, followed by audit and exact reference counts; hang watchdog; collections racing with operations whose results die at once; a small store on which the background collector runs repeatedly. Deadlock freedom: a model of the locking protocol (lock classes with a rank order, try_lock/wait/join, RwLock with writer bit) with `no_deadlock_all` / `no_cyclic_wait` for every table row, bucket/level count and schedule; the table is tied to the code by lock events recorded from real concurrent runs (hook) and replayed through the model's discipline (`trace_ok_iff`, `trace_no_deadlock`). Memory orderings of reference counts and hand-written locks are extracted and checked.",
+         "PARTIAL: real scheduler, memory model (Release/Acquire sufficiency assumed), lock fairness and condvar wake-ups are outside the models; resumption-level composition of fine-grained interleavings is argued, call-level composition is proved; a lock site without a hook is invisible to the trace check.",
          "Lean rely/guarantee proof + concurrent stress correspondence"),
- "C08": ("Proved: the target order is a permutation respecting the requested relative order, unnamed levels are placed stably at a cost-minimal (top-most) indicator; the segment tree refines the list model; bubble sort emits exactly the inversions, the concurrent task state machine never overlaps swaps, is linearizable and terminates sorted; a level swap on trees preserves the function of the variables, normal form and handle equality. Tied: level maps after total/partial reorderings and all handles' trees identical to the model's for BDD/BCDD (all source x target orders on 3 variables with 256 functions alive, sparse diagrams with empty levels, random to 10 variables, 8 threads with >65536 nodes); ZBDD reordering of live nodes is a known finding.",
-         "PARTIAL: global minimality of the number of adjacent swaps is tested, not proved; the in-place node rewriting of level_swap is covered by oracles/streams.",
+ "C08": ("Proved: the target order is a permutation respecting the requested relative order, unnamed levels are placed stably at a cost-minimal (top-most) indicator; the segment tree refines the list model; bubble sort emits exactly the inversions, the concurrent task state machine never overlaps swaps, is linearizable and terminates sorted; a level swap on trees preserves the function of the variables, normal form and handle equality. Tied: level maps after total/partial reorderings and all handles' trees identical to the model's for BDD/BCDD (all source x target orders on 3 variables with 256 functions alive, sparse diagrams with empty levels, random to 10 variables, 8 threads with >65536 nodes); ZBDD reordering of live nodes is a known finding. Store level (BDD): the in-place `level_swap` on an id-indexed heap with per-level tables, for every iteration order and allocator, re-establishes the invariant (ordered, reduced, no duplicate among moved/rewritten/fresh nodes, exact reference counts), every surviving id denotes the swapped tree, exactly the characterised orphans are freed; lifted to `set_var_order` with lazy level numbers (`setVarOrderS_correct`); three pre-fix variants are proved wrong. The store model replays the same operation file (`dump` right after `order` is predicted). The two swap schedulers are driven directly (hook) on all permutations of up to 5/6 levels and random sequences with 2-16 workers: no overlapping swaps, every swap an inversion, minimal count.",
+         "PARTIAL: global minimality of the number of adjacent swaps is tested, not proved; BCDD/ZBDD instances of the store-level swap are not proved (streams and oracles only).",
          "Lean proof (order computation, sorting, swap semantics) + correspondence"),
  "C09": ("Proved for all trees: union/intsec/diff/subset0/subset1/change/make_node/singleton/base/empty denote the documented families for every position of the variable, Boolean view consistent, add_vars keeps the family (view gains the negated new variable), normal forms preserved. Tied by all 256 families x variables x 6 orders, pairs, and histories adding variables between (repeated) operations.",
          "", "Lean proof of family semantics + exhaustive small-scope correspondence"),
@@ -153,10 +153,10 @@ META = {
          "Lean proof (counting, digit arithmetic) + correspondence with independent big-integer oracle"),
  "C13": ("Proved for all normal-form diagrams: None/false exactly for the unsatisfiable function; the picked cube implies the function; vector and diagram describe the same cube; levels strictly increase (choice asked at most once per level); values are forced or follow the caller's choice / the literal set's polarity; others stay don't-care. Tied by all functions x choice vectors x 27 literal sets x orders; uniform picking: never a non-model, frequencies within 6 sigma (statistical test).",
          "PARTIAL: uniformity is a statistical test.", "Lean proof + exhaustive small-scope correspondence"),
- "C14": ("Proved (capacity-bounded store model): an error is reported only when a fresh node is needed and the store is full; on error the store is only extended, invariant and all existing edges' denotations are intact; on success the result is the uncapped result, monotone in the capacity; after freeing space the operation succeeds. Tied (fault enumeration): scripted histories under every capacity 0..C_max on a capped manager next to a reference manager: OOM or the reference result, OOM only when the store is full (single-threaded), audit + reference counts + all handles after every failure, 1 and 4 threads.",
+ "C14": ("Proved (capacity-bounded store model): an error is reported only when a fresh node is needed and the store is full; on error the store is only extended, invariant and all existing edges' denotations are intact; on success the result is the uncapped result, monotone in the capacity; after freeing space the operation succeeds. Tied (fault enumeration): scripted histories under every capacity 0..C_max on a capped manager next to a reference manager: OOM or the reference result, OOM only when the store is full (single-threaded), audit + reference counts + all handles after every failure, 1 and 4 threads; exact allocation-point enumeration: the store is filled with ballast until exactly j slots are free (j = 0, 1, 2, ...), the operation (connective, ite, substitution incl. its preparation phase, quantification, apply-quantify, restrict) runs, is audited, the ballast is dropped and collected and the operation is retried and must succeed - also on managers with worker threads (parallel recursors).",
          "Known findings: set_var_order and ZBDD add_vars abort on exhaustion (no error return). Thresholds are not predicted by the model.",
          "Lean proof of error-path cleanliness + capacity sweep with oracles"),
- "C20": ("Proved: results (as trees), tree sets and node counts of a recorded history are independent of the allocator (any free slot: index vs pointer stores, free lists, chunks), of the cache policy and evictions, and per operation of the thread schedule. Tied: the same operation files executed by the harness built in {manager-index, manager-pointer} x {cache on, off} x {multi-threading on, off} (quick: default + opposite corner; thorough: all eight) give identical outputs and equal the model's.",
+ "C20": ("Proved: results (as trees), tree sets and node counts of a recorded history are independent of the allocator (any free slot: index vs pointer stores, free lists, chunks), of the cache policy and evictions, and per operation of the thread schedule. Tied: the same operation files executed by the harness built in {manager-index, manager-pointer} x {cache on, off} x {multi-threading on, off} (quick: default + opposite corner; thorough: all eight) give identical outputs and equal the model's; TDD histories on both backends, MTBDD histories on the index backend's configurations (MTBDDs do not exist for the pointer backend).",
          "Real memory layout (arcslab, hugealloc) is abstracted as 'any free slot'.",
          "Lean proof of configuration independence + cross-build differential runs"),
 }
